@@ -137,11 +137,10 @@ func sideEffectEvent(e sim.Event) bool {
 	case "db", "tp", "cb":
 		return true
 	}
-	switch e.Kind {
-	case "app.NewTransport", "app.FilterForwarding", "app.FederatingCallbacks", "app.SocialCallbacks", "app.GetInbox", "app.GetOutbox":
-		return true
-	}
-	return false
+	// the statement's list: Database and Transport calls, activity callbacks,
+	// the default callback (class cb) and the forwarding filter. Fetching the
+	// callback table, creating a transport or asking for a page is not on it.
+	return e.Kind == "app.FilterForwarding"
 }
 
 // hiddenKeys walks a payload through 'object' looking for bto/bcc.
